@@ -171,6 +171,18 @@ func cmdCheck(args []string) {
 				confirmed = true
 				how = "engine-observed footprint of the real SSA; native replay of the same inputs completes on the same path"
 			}
+			if !confirmed && pf.f.MapOrders > 0 && nr.Done && nr.Diverged == "" {
+				// the failing path depends on a map iteration order, which the engine chose and
+				// the Go runtime randomises: replay the same inputs until the real build
+				// exhibits it (bounded; never confirmed without a native failure)
+				for attempt := 2; attempt <= 60 && !confirmed; attempt++ {
+					nr = nativeRun(bin, scratch, []nativeCase{nc}, 20*time.Second)[0]
+					if len(nr.Failed) > 0 {
+						confirmed = true
+						how = fmt.Sprintf("%s (depends on map iteration order: reproduced natively on attempt %d)", strings.Join(nr.Failed, "; "), attempt)
+					}
+				}
+			}
 		case "panic":
 			confirmed = nr.Panicked != "" || nr.Crashed != ""
 			how = nr.Panicked + nr.Crashed
